@@ -459,6 +459,18 @@ func run(tier, path string) {
 	}
 	x.rowsOps(2, (mult+3)/4)
 	x.rowsOps(5, (mult+3)/4)
+	pats := sysPatterns
+	if tier == "thorough" {
+		pats = append(append([]string{}, sysPatterns...), allPatterns(4)...) // every order of value / null / empty over 1..4 rows
+	}
+	x.reuseSystematic(4, pats)
+	x.reuseSystematic(2, sysPatterns)
+	for v := 3; v <= 4; v++ {
+		x.reuseOps(v, mult)
+	}
+	x.reuseOps(1, (mult+3)/4)
+	x.reuseOps(2, (mult+1)/2)
+	x.reuseOps(5, (mult+3)/4)
 	x.skipOps(3, 60*mult)
 	x.skipOps(4, 60*mult)
 	out.Close(map[string]interface{}{"skipped_unsafe_alloc_inputs": x.skip})
